@@ -1,15 +1,15 @@
 SPECIFICATION Spec
 CONSTANTS
   NAddr = 3
-  NSlot = 1
+  NSlot = 2
   Vals <- V02
   Amts <- A01
-  Genesis <- GenJ1
+  Genesis <- GenJ2
   HasLock <- NoLock3
   Ops <- OpsJ
   MaxMut = 3
-  MaxSnap = 3
-  MaxDepth = 3
+  MaxSnap = 2
+  MaxDepth = 2
   FrameAddr <- FrJ
   NewAddrs <- NoNew
   XferTo <- NoXfer
